@@ -23,7 +23,7 @@ from rich.pretty import pretty_repr
 
 from pydjinni.api import API, combine_into
 from pydjinni.defs import DEFAULT_CONFIG_PATH
-from pydjinni.exceptions import ApplicationException, ApplicationExceptionList
+from pydjinni.exceptions import ApplicationException, ApplicationExceptionList, ConfigurationException
 from .context import (
     CliContext, pass_cli_context,
     GenerateContext, pass_generate_context,
@@ -184,6 +184,8 @@ def cli(ctx, log_level, config, option):
             defaultdict(None, {'foo': {'bar': 'baz'}})
         """
         value: str
+        if '=' not in option:
+            raise ConfigurationException(f"Invalid option '{option}'. Expected format: 'key=value'")
         key_list, value = option.split('=', 1)
         keys = key_list.split('.')
         result = defaultdict()
